@@ -146,7 +146,9 @@ func h01filterN(names []string, symbolic bool, lineOf []int, allPresent bool) {
 			d.Tokens = append(d.Tokens, indexedToken{Line: lineOf[i], ID: dict.getIndex("w1")})
 		}
 		d.generateFrequencies()
-		d.runes = diffWordsToRunes(d, 0, d.size())
+		for _, t := range d.Tokens { // what tokenizeStream stores for go-diff
+			d.runes = append(d.runes, tokenRune(t.ID))
+		}
 		d.Norm = d.normalized()
 		return d, nil
 	}
